@@ -6,6 +6,9 @@ CONSTANTS
   AllowCancel = TRUE
   AllowUserClose = TRUE
   AllowEarlyEnd = TRUE
+  MaxRenew = 0
+  FixRenew = TRUE
+  RenewModes = {FALSE}
   ErrorOnce = TRUE
 VIEW View
 INVARIANTS PrefixOfExpected ExactRowsAtEOF FragmentsConcatenate ErrorOnceThenEOF NoLeakedRegionScanner ClosedMeansNoCurrent
